@@ -244,11 +244,13 @@ impl ConcreteReadableShape for Multipatch {
         if (record_size != record_size_with_m) & (record_size != record_size_without_m) {
             Err(Error::InvalidShapeRecordSize)
         } else {
-            let mut patch_types = vec![PatchType::Ring; reader.num_parts as usize];
-            let mut patches = Vec::<Patch>::with_capacity(reader.num_parts as usize);
-            for i in 0..reader.num_parts {
-                patch_types[i as usize] = PatchType::read_from(reader.source)?;
+            let num_parts = reader.num_parts as usize;
+            let mut patch_types =
+                Vec::<PatchType>::with_capacity(num_parts.min(MAX_PREALLOCATED_ELEMENTS));
+            for _ in 0..num_parts {
+                patch_types.push(PatchType::read_from(reader.source)?);
             }
+            let mut patches = Vec::<Patch>::with_capacity(patch_types.len());
             let (bbox, patches_points) = reader
                 .read_xy()
                 .and_then(|rdr| rdr.read_zs())
